@@ -244,6 +244,106 @@ fn table(env: &Env, st: &mut Stats) -> Vec<Failure> {
     fails.into_inner().unwrap()
 }
 
+/// Wide arities: every built-in with 3 .. 600 arguments (count thresholds).
+fn wide_arity(env: &Env, st: &mut Stats) -> Vec<Failure> {
+    let mut counts: Vec<usize> = (3..=40).collect();
+    counts.extend([63, 64, 65, 100, 127, 128, 129, 200, 254, 255, 256, 257, 258, 300, 511, 512, 513, 600]);
+    if env.tier == Tier::Thorough {
+        counts.extend(41..=300);
+        counts.extend([1023, 1024, 1025, 2000]);
+    }
+    let mut fails = vec![];
+    for sig in SIGS {
+        for n in &counts {
+            // arguments that satisfy a variadic tail where there is one
+            let arg = match sig.name {
+                "merge" => "o",
+                _ => "`1`",
+            };
+            let expr = format!("{}({})", sig.name, vec![arg; *n].join(", "));
+            let doc = "{\"o\":{\"a\":1}}";
+            if let Err(f) = check_cell("wide-arity", &expr, doc, st) {
+                let mut f = f;
+                f.case = json!({"function": sig.name, "arguments": n, "argument": arg, "document": doc});
+                fails.push(f);
+                if fails.len() > 20 {
+                    return fails;
+                }
+            }
+            st.nontrivial(&format!("{}:{}", sig.name, n));
+        }
+    }
+    st.sample(|| json!({"expression": "not_null(`1`, `1`, ... x 256)"}));
+    fails
+}
+
+fn replay_wide(case: &Value, _env: &Env) -> CaseResult {
+    let n = case["arguments"].as_u64().unwrap_or(3) as usize;
+    let expr = format!("{}({})", case["function"].as_str().unwrap_or("abs"), vec![case["argument"].as_str().unwrap_or("`1`"); n].join(", "));
+    let mut st = Stats::new();
+    check_cell("wide-arity", &expr, case["document"].as_str().unwrap_or("{}"), &mut st)
+}
+
+/// Several calls over the SAME (possibly large) array in one expression, with
+/// functions that accept it and functions that must reject it: validation
+/// state must not carry over from one call to the next.
+fn call_sequences(src: &mut Src, st: &mut Stats, _env: &Env) -> CaseResult {
+    use crate::gen_typed::{schema_number, schema_string};
+    let n = src.size(300);
+    let kind = src.below(4);
+    let arr = J::Arr((0..n).map(|i| match kind {
+        0 => schema_number(src),
+        1 => J::Str(schema_string(src)),
+        2 => if i == n - 1 && n > 1 { J::Str("odd".into()) } else { schema_number(src) },
+        _ => if i % 2 == 0 { schema_number(src) } else { J::Str(schema_string(src)) },
+    }).collect());
+    let doc = J::Obj([("xs".to_string(), arr), ("s".to_string(), J::s(","))].into_iter().collect());
+    let fns = ["max(xs)", "min(xs)", "sum(xs)", "avg(xs)", "sort(xs)", "join(s, xs)", "length(xs)", "reverse(xs)", "to_array(xs)", "contains(xs, `1`)", "not_null(xs)", "max(@.xs)", "sum(xs[*])", "sort(xs[:])"];
+    let k = 2 + src.below(3);
+    let calls: Vec<&str> = (0..k).map(|_| *src.pick(&fns)).collect();
+    let dt = doc.to_json();
+    // each call alone and all of them in one multi-select: same outcome classes, call by call
+    let mut first_err: Option<String> = None;
+    for c in &calls {
+        let expr = c.to_string();
+        let tree = refparse::parse_strict(&expr).map_err(|e| Failure::new("call-sequences", "harness-expr", e.msg, json!({})))?;
+        let mut cx = refeval::Ctx::default();
+        if let Err(e) = refeval::eval(&tree, &doc, &mut cx) {
+            if !matches!(e, EvalErr::Unspecified(_)) && first_err.is_none() {
+                first_err = Some(e.class().to_string());
+            }
+        }
+    }
+    let combined = format!("[{}]", calls.join(", "));
+    st.eval();
+    let got = search_text(&combined, &dt);
+    let case = json!({"expression": combined, "document": dt});
+    match (&first_err, &got) {
+        (None, ImpOut::Ok(_)) => {}
+        (Some(want), ImpOut::SearchErr(e)) if &e.class == want => {}
+        (_, ImpOut::Panic(p)) => return Err(Failure::new("call-sequences", "panic", p.clone(), case)),
+        (want, other) => {
+            // the reference flags non-finite sums as unspecified; tolerate the recorded finding
+            if let ImpOut::SearchErr(e) = other {
+                if e.is_parse && (e.detail.contains("valid number") || e.detail.contains("valid f64")) {
+                    return Ok(());
+                }
+            }
+            return Err(Failure::new(
+                "call-sequences",
+                "call-sequence-outcome-differs",
+                format!("{} gave {} but call by call the specification says {:?}", combined, other.brief(), want.clone().unwrap_or_else(|| "Ok".into())),
+                case,
+            ));
+        }
+    }
+    st.class(if first_err.is_some() { "sequence:error" } else { "sequence:ok" });
+    if n >= 32 && st.nontrivial(&format!("{}\u{0}{}", combined, dt)) {
+        st.sample(|| json!({"expression": combined, "array_len": n}));
+    }
+    Ok(())
+}
+
 fn replay_cell(case: &Value, _env: &Env) -> CaseResult {
     let mut st = Stats::new();
     check_cell("table", case["expression"].as_str().unwrap_or(""), case["document"].as_str().unwrap_or("null"), &mut st)
@@ -259,6 +359,10 @@ pub fn property() -> Property {
             "merge() with no argument is treated as an arity error (the suite and jmespath.py agree; the specification text is ambiguous)".into(),
         ],
         minimise: None,
-        subs: vec![Sub::Custom(CustomSub { name: "table", run: table, replay: replay_cell })],
+        subs: vec![
+            Sub::Custom(CustomSub { name: "table", run: table, replay: replay_cell }),
+            Sub::Custom(CustomSub { name: "wide-arity", run: wide_arity, replay: replay_wide }),
+            Sub::Bytes(BytesSub { name: "call-sequences", f: call_sequences, max_len: 2000, quick: Budget { threads: 8, cases: 2500 }, thorough: Budget { threads: 16, cases: 100_000 }, keep_unreproducible: false }),
+        ],
     }
 }
